@@ -169,6 +169,21 @@ CLAIMS = {
              "(O5) are not under contract yet.",
         note=PYVC_TRUST + "; asyncio.Future/Queue contracts assumed; Packet.append by its C11 contract; bounded in "
              "requests per frame for process_packet"),
+    "C08": dict(
+        engine="pyvc+bpfvc", category="other", design_ref="DESIGN.md section 4 C08",
+        technique="contract-based deductive verification: the real source of ArrayMap.collect over generated class "
+                  "hierarchies with symbolic variable sizes (layout invariant over the effective descriptors), "
+                  "byte-level postconditions on ArrayGlobalVarDesc.__get__/__set__ and PerCPUVar.__getitem__, and "
+                  "bpfvc on a generated program per format",
+        text="collect: for four hierarchy shapes (flat with a foreign map, inherited, re-declared name, program with "
+             "three subprogram instances of two classes) and all variable sizes, every effective variable of the map "
+             "has an offset, lies inside the map, shares no byte with any other, and the map size is a multiple of 8. "
+             "User side: for formats B H I Q b h i q and multi-element formats, any address and map content, set "
+             "changes exactly the variable's bytes and get returns the value (tuple) stored there; per-CPU variables "
+             "decode CPU c's copy at stride map.size. Program side: a generated program reads and writes exactly "
+             "the variable's bytes of the map value for every format. Bounded in hierarchy shapes and formats; "
+             "fixed-point conversion is left to C02.",
+        note=PYVC_TRUST + "; " + BPFVC_TRUST + "; host little endian; mmap and per-CPU layout are kernel contracts"),
     "C10": dict(
         engine="pyvc", category="other", design_ref="DESIGN.md section 4 C10",
         technique="contract-based deductive verification: preconditions at call sites. The kernel ABI of the bpf() "
@@ -177,11 +192,12 @@ CLAIMS = {
                   "buffer preconditions, and every caller in the package is proved to meet them",
         text="For every file descriptor, count, buffer content and number of possible CPUs: each map lookup, update, "
              "delete, lookup-and-delete and key iteration issued by HashGlobalVarDesc, HashMap.init, Dict.init, "
-             "TheDict (set/get/pop/del/iter), PerCPUReader.read and FastEtherCat.register_sync_group passes key and "
-             "value buffers at least as large as what the kernel transfers - except PerCPUReader.read, whose buffer "
-             "is sized by the online CPU count (recorded finding). Formats and Structure definitions enumerated.",
-        note=PYVC_TRUST + "; kernel ABI assumed; create_map arguments of PerCPUArrayMap/FastEtherCat.connect read "
-             "off the source as class invariants; one recorded finding (per-CPU buffer sized by online CPUs)"),
+             "TheDict (set/get/pop/del/iter), PerCPUArrayMap.create_map / PerCPUReader.read and "
+             "FastEtherCat.register_sync_group passes key and value buffers at least as large as what the kernel "
+             "transfers; per-CPU buffers cover roundup8(value size) times the possible CPUs. Formats and Structure "
+             "definitions enumerated.",
+        note=PYVC_TRUST + "; kernel ABI assumed; sysfs contract of possible_cpus assumed; create_map arguments of "
+             "FastEtherCat.connect read off the source as class invariant"),
     "C15": dict(
         engine="pyvc", category="other", design_ref="DESIGN.md section 4 C15",
         technique="contract-based deductive verification: sidecar contracts on the real source of "
